@@ -111,6 +111,7 @@ fn main() {
         "C18" => c18::run(tier),
         "c18-history" => c18::history_child(tier),
         "c18-trace" => c18::trace_child(),
+        "c18-trace-fmt" => c18::trace_fmt_child(),
         "c18-corpus" => c18::corpus_child(tier),
         "C19" => c19::run(tier),
         "c19-child" => c19::child_main(tier.parse().unwrap(), &args[3], args.get(4).map(|s| s.as_str())),
